@@ -1,6 +1,6 @@
 (* C01, simulation: fragment F2a = F1 plus conditionals.
-     statements of main:  SetGlobalVar g e | Comment | IfTrue e s | IfFalse e s | IfElse e s s
-   with e an expression of F1 and s again such a statement (no Composite: one card per branch).
+     statements of main:  SetGlobalVar g e | Comment | IfTrue e s | IfFalse e s | IfElse e s s | Composite [s; ...]
+   with e an expression of F1 and s again such statements.
    The emitted code now depends on where it lies (jump targets are absolute byte addresses). *)
 From Coq Require Import List NArith ZArith Bool.
 From Cao Require Import ListUtil Bits CardAst Bytecode Compiler CompilerWf C01SimDefs.
@@ -14,6 +14,7 @@ Fixpoint stmt_f2 (c : card) : bool :=
   | CComment _ => true
   | CBin BIfTrue e b | CBin BIfFalse e b => expr_f1 e && stmt_f2 b
   | CTri TIfElse e a b => expr_f1 e && stmt_f2 a && stmt_f2 b
+  | CComposite _ cs => forallb stmt_f2 cs
   | _ => false
   end.
 
@@ -43,6 +44,12 @@ Fixpoint code_stmt2 (T : list (N * N)) (base : N) (c : card) : list instr :=
       let else_at := base + bytes ce + 5 + bytes ca + 5 in
       let cb := code_stmt2 T else_at b in
       ce ++ IGotoIfFalse (u32_to_i32 else_at) :: ca ++ IGoto (u32_to_i32 (else_at + bytes cb)) :: cb
+  | CComposite _ cs =>
+      (fix go (base : N) (l : list card) {struct l} : list instr :=
+         match l with
+         | [] => []
+         | c :: r => let cc := code_stmt2 T base c in cc ++ go (base + bytes cc) r
+         end) base cs
   | _ => []
   end.
 
@@ -57,6 +64,7 @@ Fixpoint stmt_depth2 (c : card) : nat :=
   | CSetGlobalVar _ e => depth e
   | CBin _ e b => Nat.max (depth e) (stmt_depth2 b)
   | CTri _ e a b => Nat.max (depth e) (Nat.max (stmt_depth2 a) (stmt_depth2 b))
+  | CComposite _ cs => fold_right (fun c m => Nat.max (stmt_depth2 c) m) 0%nat cs
   | _ => 0
   end.
 Definition depth_ok2 (cards : list card) : bool :=
@@ -67,6 +75,7 @@ Fixpoint stmt_names2 (c : card) : list str :=
   | CSetGlobalVar g e => expr_names e ++ [g]
   | CBin _ e b => expr_names e ++ stmt_names2 b
   | CTri _ e a b => expr_names e ++ stmt_names2 a ++ stmt_names2 b
+  | CComposite _ cs => flat_map stmt_names2 cs
   | _ => []
   end.
 Definition main_names2 (cards : list card) : list str := flat_map stmt_names2 cards.
@@ -93,6 +102,12 @@ Fixpoint run_stmt2 (g : list (str * RefSem.value)) (c : card) : bool * list (str
       | None => (false, g)
       | Some v => if RefSem.v_bool [] v then run_stmt2 g a else run_stmt2 g b
       end
+  | CComposite _ cs =>
+      (fix go (g : list (str * RefSem.value)) (l : list card) {struct l} : bool * list (str * RefSem.value) :=
+         match l with
+         | [] => (true, g)
+         | c :: r => let '(okf, g1) := run_stmt2 g c in if okf then go g1 r else (false, g1)
+         end) g cs
   | _ => (true, g)
   end.
 Fixpoint run_cards2 (g : list (str * RefSem.value)) (cards : list card) : bool * list (str * RefSem.value) :=
@@ -100,3 +115,24 @@ Fixpoint run_cards2 (g : list (str * RefSem.value)) (cards : list card) : bool *
   | [] => (true, g)
   | c :: r => let '(okf, g1) := run_stmt2 g c in if okf then run_cards2 g1 r else (false, g1)
   end.
+
+(* the local loops of the Composite case are the functions on card lists *)
+Lemma code_stmt2_composite T base ty cs : code_stmt2 T base (CComposite ty cs) = code_main2 T base cs.
+Proof.
+  revert base. induction cs as [|c r IH]; intros base; [reflexivity|].
+  cbn [code_main2]. rewrite <- IH. reflexivity.
+Qed.
+Lemma run_stmt2_composite g ty cs : run_stmt2 g (CComposite ty cs) = run_cards2 g cs.
+Proof.
+  revert g. induction cs as [|c r IH]; intros g; [reflexivity|].
+  cbn [run_cards2]. destruct (run_stmt2 g c) as [okf g1] eqn:E.
+  change (run_stmt2 g (CComposite ty (c :: r))) with
+    (let '(okf, g1) := run_stmt2 g c in if okf then run_stmt2 g1 (CComposite ty r) else (false, g1)).
+  rewrite E. destruct okf; [apply IH | reflexivity].
+Qed.
+Lemma stmt_depth2_composite ty cs c : In c cs -> (stmt_depth2 c <= stmt_depth2 (CComposite ty cs))%nat.
+Proof.
+  cbn [stmt_depth2]. induction cs as [|x r IH]; [intros []|]. intros [<-|Hin]; cbn [fold_right].
+  - apply Nat.le_max_l.
+  - etransitivity; [apply IH, Hin | apply Nat.le_max_r].
+Qed.
